@@ -376,7 +376,7 @@ def load_own_findings(ck):
     them into known_findings.json they are matched from there."""
     f = core.VERIF / "findings.d" / f"{PID}.json"
     if f.exists():
-        have = {k["id"] for k in ck._known}
+        have = {k["id"] for k in core.load_known()}      # merged entries (open or fixed) win
         ck._known += [k for k in json.loads(f.read_text())
                       if k["property"] == PID and k.get("status") == "open" and k["id"] not in have]
 
@@ -404,14 +404,14 @@ def run(ck):
         rn = run_tlc("neg", STMTS, offs, 2, workers=4)
         ck.add_tlc(rn, "IdTrackOrder negative controls (each sorted site switched off)")
         printed += [json.loads(x) for x in set(rn.printed())]
-    # the i18n extension's unsorted iteration over the free names of a trans block: the code's setting
-    # (trans |-> FALSE) next to the repaired one
+    # the i18n extension's iteration over the free names of a trans block: unsorted (the tree before
+    # repair 3239c13, finding F30a) next to sorted (the code now)
     tstm = TRANS_STMTS + [STMTS[1], STMTS[5], STMTS[12]]
     rt = run_tlc("trans", tstm, [sw(trans=False), sw()], 2, workers=4)
-    ck.add_tlc(rt, "IdTrackOrder: programs with trans blocks, code's setting (unsorted) and repaired setting")
+    ck.add_tlc(rt, "IdTrackOrder: programs with trans blocks, trans site unsorted (pre-repair) and sorted")
     tprinted = [json.loads(x) for x in set(rt.printed())]
     tleaks = [b for b in tprinted if "leak" in b and not b["leak"]["trans"]]
-    ck.extra["model_predicts_seed_dependent_code_for_trans_programs"] = len({json.dumps(b["prog"]) for b in tleaks})
+    ck.extra["model_trans_programs_order_dependent_when_unsorted"] = len({json.dumps(b["prog"]) for b in tleaks})
     if not tleaks:
         raise core.MachineryError("the model does not show the order dependence of the trans site")
     printed += [b for b in tprinted if "canon" in b and any(s["k"] == "trans" for s in b["prog"])]
@@ -432,7 +432,7 @@ def run(ck):
                                              "pop_assign_tracking sorted(vars)": True,
                                              "pop_assign_tracking sorted(public_names)": True,
                                              "branch_update (unsorted in the code)": False,
-                                             "ext.i18n parse: for name in referenced (unsorted in the code)": True}
+                                             "ext.i18n parse: sorted(referenced) (added by repair 3239c13)": True}
     t1 = time.time()
     # --- names and real compilations
     names = choose_names(ck, seeds, rnd)
